@@ -10,6 +10,10 @@ CHECKS = {
    "explicit-state BFS over the real JobList object (every transition executed on the implementation), invariant checked in every state",
    "Breadth-first exploration of every history of job-table operations (insert running/suspended with fresh pid or pid of a finished job, update status, set current, remove, remove-if, report, extract) over up to 4 jobs, to depth 6 (quick) / 9 (thorough), with the five invariants of the statement, find_by_pid/iter agreement, per-operation postconditions and job-index stability evaluated after every transition. The property is an inductive invariant of a small state machine, so explicit-state exploration of the real object is the right level.",
    "Alphabet restricted as in the statement (re-insert only pids of finished jobs); states merged by visible content plus the slab's next free indices."),
+ "C13": ("model_checking", "DESIGN.md §3 C13",
+   "stateless deviation-bounded DFS over schedules of the real shell on the simulated OS under a controlled executor (choice of next runnable process at every blocking point; nested-poll preemption at syscall taps), oracle = reference interpreter",
+   "About 280 (quick) / 360 (thorough) race-free programs (pipelines of 2-4 stages with and without data, pipefail, async lists with wait/wait $!/saved pids/unknown pid, waits inside subshells and command substitutions, background job concurrent with a foreground pipeline) are each executed under every cooperative schedule (every choice of the next runnable simulated process at every blocking point; if the per-program cap is hit the run falls back to deviation bound 2 and says so) and additionally with preemption at every simulated system call up to deviation bound 1 (quick) / 2 (thorough). Every execution must terminate (no deadlock/livelock), show exactly the markers and $? values the reference interpreter predicts per process, exit with the predicted status, leave no zombie and no live process. Schedule bugs are interleaving bugs, so exhaustive schedule enumeration within a deviation bound is the fitting level.",
+   "Schedules are those of the simulator (poll order of virtual processes; syscalls atomic); refsh and the probe built-ins are trusted; programs whose outcome legitimately depends on a race (EPIPE) are excluded by the generator."),
 }
 
 NOT_YET = {
